@@ -922,6 +922,19 @@ class Interp:
             a_ = atom("inrange", core(v).r(), f(p["lo"]), f(p["hi"]), p["incl"])
             self.atom_vals[a_[1]] = (v,)
             return a_
+        if k == "Slice" and not p.get("mid") and (p["before"] + p["after"]) and not all(sp["k"] in ("Wild", "Binding") and not sp.get("sub") for sp in p["before"] + p["after"]):
+            # a fixed-length pattern with refutable elements, `[2, 5, 4, x]`: the length and every element are tested
+            elems_ = p["before"] + p["after"]
+            v0_ = core(v)
+            if isinstance(v0_, ArrayV):
+                if len(v0_.items) != len(elems_):
+                    return False
+                return And(*[self.bindpat(sp, v0_.items[i_], fr) for i_, sp in enumerate(elems_)])
+            ln_ = CallV("core::slice::<impl [T]>::len", [v], None)
+            fs_ = [self.eq_formula(ln_, Const(len(elems_)))]
+            for i_, sp in enumerate(elems_):
+                fs_.append(self.bindpat(sp, IndexV(v, Const(i_)), fr))
+            return And(*fs_)
         if k == "Slice":
             for sp in p["before"] + p["after"]:
                 self.bindpat(sp, Sel(v, "[]"), fr)
